@@ -9,9 +9,9 @@ Independent spec for C14.
    (a different shape from `gff.Build`'s buffer appends), with free layout choices `ℓ`:
    any number of skip lines (blank, `#` comment, `##` directive, `###`) before every feature,
    after the last feature and between the lines of the FASTA section, arbitrary FASTA line
-   widths (each line its own width, zero = a blank line), final newline or not; and three
-   further choices on which `gff.Parse` fails (known findings): directives before
-   `##sequence-region`, a `;` at the end of column 9, CR LF line ends.
+   widths (each line its own width, zero = a blank line), final newline or not; directives
+   before `##sequence-region`, a `;` at the end of column 9, CR LF line ends (the last three
+   made `gff.Parse` panic until fixes aac6dbd, 244ec83, 4e5b18b).
 3. `denote d` — the in-memory value such a file denotes (0-based half-open coordinates).
 4. `bases seq s e` — "bases s..e of the sequence", 1-based inclusive, by enumeration of positions
    (the coordinate law is stated against this, not against a slice expression).
@@ -50,7 +50,6 @@ structure Layout where
   fastaBetween : List (List Str) := []  -- skip lines before the i-th line of sequence letters
   widths : List Nat := []               -- widths of the successive FASTA lines; the rest goes on one line
   finalNewline : Bool := true
-  -- three further choices of a GFF3 writer, on which the real parser fails (known findings; excluded by `plainLayout`):
   preRegion : List Str := []            -- directive lines between `##gff-version` and `##sequence-region`
   trailingSemi : Bool := false          -- column 9 ends with `;`
   crlf : Bool := false                  -- lines end with CR LF
@@ -116,18 +115,19 @@ def inInt (v : Int) : Bool := decide (minInt ≤ v ∧ v ≤ maxInt)
 /-- a letter that may occur in the sequence: ASCII (Go slices bytes, the model characters), not a
 newline, and not one of the two characters that give a FASTA line another meaning (`>` definition
 line, `#` comment / directive) -/
-def seqChar (c : Char) : Bool := c != '\n' && c != '>' && c != '#' && decide (c.toNat < 128)
+def seqChar (c : Char) : Bool := c != '\n' && c != '>' && c != '#' && decide (c.toNat < 128) && c != '\r'
 
 def keysNodup : List (Str × Str) → Bool
   | [] => true
   | kv :: r => !(r.map (·.1)).contains kv.1 && keysNodup r
 
-/-- attributes: at least one, distinct keys, text free of tab, newline, `;`, `=` -/
+/-- attributes: distinct keys, text free of tab, newline (LF and CR), `;`, `=`.  The list may be
+empty: since fix 244ec83 an empty ninth column reads back as no attributes. -/
 def wfAttrs (a : List (Str × Str)) : Bool :=
-  !a.isEmpty && keysNodup a && a.all fun kv => free ['\t', '\n', ';', '='] kv.1 && free ['\t', '\n', ';', '='] kv.2
+  keysNodup a && a.all fun kv => free ['\t', '\n', '\r', ';', '='] kv.1 && free ['\t', '\n', '\r', ';', '='] kv.2
 
-/-- a column: free of tab and newline -/
-def wfCol (s : Str) : Bool := free ['\t', '\n'] s
+/-- a column: free of tab and newline (LF and CR: `gff.Parse` drops a CR at the end of a line) -/
+def wfCol (s : Str) : Bool := free ['\t', '\n', '\r'] s
 
 /-- a feature of a record given to `gff.Build` (`locus` = Meta.Locus.Name, used for an empty seqid) -/
 def wfFeature (locus : Str) (f : Feature) : Bool :=
@@ -137,7 +137,7 @@ def wfFeature (locus : Str) (f : Feature) : Bool :=
 
 /-- hypothesis of `parse_build` -/
 def wfBuild (x : Gff) : Bool :=
-  free [' ', '\n'] (regionName x) && free ['\n'] x.name && free [' ', '\n'] x.gffVersion
+  free [' ', '\n', '\r'] (regionName x) && free ['\n', '\r'] x.name && free [' ', '\n', '\r'] x.gffVersion
   && inInt x.regionStart && inInt x.regionEnd
   && x.seq.all seqChar
   && x.features.all (wfFeature x.locusName)
@@ -149,22 +149,19 @@ def wfFeatLine (f : FeatLine) : Bool :=
   && inInt f.first && inInt f.last && wfAttrs f.attrs
 
 def wfDoc (d : GffDoc) : Bool :=
-  free [' ', '\n'] d.version && free [' ', '\n'] d.region && inInt d.regionFirst && inInt d.regionLast
-  && d.feats.all wfFeatLine && free ['\n'] d.defline && d.seq.all seqChar
+  free [' ', '\n', '\r'] d.version && free [' ', '\n', '\r'] d.region && inInt d.regionFirst && inInt d.regionLast
+  && d.feats.all wfFeatLine && free ['\n', '\r'] d.defline && d.seq.all seqChar
 
 /-- a line a GFF3 reader skips: blank, or a `#` comment / `##` directive (also `###`) other than the
 `##FASTA` mark; no newline inside -/
-def wfSkip (l : Str) : Bool := l.isEmpty || (hasPrefix sHash1 l && l != sFasta && free ['\n'] l)
+def wfSkip (l : Str) : Bool := l.isEmpty || (hasPrefix sHash1 l && l != sFasta && free ['\n', '\r'] l)
 
-/-- directive lines start with `##`, are not the `##FASTA` mark, hold no newline -/
-def wfDirective (l : Str) : Bool := hasPrefix sHash2 l && l != sFasta && free ['\n'] l
+/-- a directive that may stand before the region line: a skip line that is not itself a
+`##sequence-region…` line -/
+def wfPreRegion (l : Str) : Bool := wfSkip l && !hasPrefix sSeqRegion l
 
 def wfLayout (ℓ : Layout) : Bool :=
-  ℓ.between.all (·.all wfSkip) && ℓ.after.all wfSkip && ℓ.fastaBetween.all (·.all wfSkip) && ℓ.preRegion.all wfDirective
-
-/-- the layouts `parse_layout_partial` covers: `##sequence-region` on the second line, no `;` at the end
-of column 9, LF line ends -/
-def plainLayout (ℓ : Layout) : Bool := ℓ.preRegion.isEmpty && !ℓ.trailingSemi && !ℓ.crlf
+  ℓ.between.all (·.all wfSkip) && ℓ.after.all wfSkip && ℓ.fastaBetween.all (·.all wfSkip) && ℓ.preRegion.all wfPreRegion
 
 /-! ### the corresponding record for a `gff.Build` round trip -/
 
